@@ -41,7 +41,9 @@
                                              set: if that mutation is a write_* its file is left torn.
                                              k >= number of mutations of the build: it completes.
 
-   Output  (files, builds, linked)
+   Output  (files, builds, linked)          Coq prints nested pairs left-flattened: a file entry appears as
+                                            `(kind, name, (tag, x))`, a build as `(outcome, n, prune_safe, [..])`,
+                                            a label entry as `(label, (kind, name))`.
    files   : list ((kind, name), (tag, x))   every existing file, sorted: module, theory digest, then per
                                              component name ascending: source, library, digest
                kind 0 module (name 0) | 1 theory digest file (name 0) | 2 component source <name>.rs
